@@ -4,8 +4,8 @@ Run:  ./check IMGCORR [--tier thorough]"""
 from props import imglib
 
 ID = 'IMGCORR'
-COQ_PROPS = ['Wrapper/Corr.v']
-THEOREMS = []
+COQ_PROPS = list(imglib.COQ_PROPS)
+THEOREMS = [t for f in imglib.COQ_PROPS for t in imglib.THEOREMS[f]]
 ALLOWED_AXIOMS = []
 TRUSTED_BASE = ['coq/Wrapper/Model.v (hand model of NiftiWrapper.from_sequence / split / __init__ check)',
                 'the two sqrt normalisations of from_sequence: executable instance Wrapper.Corr.unit_exact (exact rational square roots)']
